@@ -57,8 +57,14 @@ class MeshTet2(MeshTet1):
         doflocs[:, D] /= np.linalg.norm(doflocs[:, D], axis=0)
         return replace(M, doflocs=doflocs)
 
+    def _refined_linear(self, *args):
+        """Refine as MeshTet1 which knows how to propagate the subdomains."""
+        m = replace(MeshTet1.from_mesh(self),
+                    _subdomains=self._subdomains).refined(*args)
+        return replace(MeshTet2.from_mesh(m), _subdomains=m._subdomains)
+
     def _uniform(self):
-        return MeshTet2.from_mesh(MeshTet1.from_mesh(self).refined())
+        return self._refined_linear()
 
     def _adaptive(self, marked):
-        return MeshTet2.from_mesh(MeshTet1.from_mesh(self).refined(marked))
+        return self._refined_linear(marked)
